@@ -28,6 +28,7 @@ type EsSpec struct {
 	LateAudio int // audio starts only after this many video frames (0 = from the start)
 	TsBack    bool // one backward timestamp jump to below the stream's first timestamp
 	TrailingNonIdr bool // key frames may end with a non-IDR NAL unit (filler data)
+	LonePS         bool // some non-key frames are preceded by a PPS or an SPS on its own (parameter-set update sent separately)
 }
 
 type EsFrame struct {
@@ -194,6 +195,13 @@ func BuildEs(r *rand.Rand, inc int, sp EsSpec) *EsStream {
 					f.Nals = append([][]byte{es.Vps, es.Sps, es.Pps}, f.Nals...)
 				} else {
 					f.Nals = append([][]byte{es.Sps, es.Pps}, f.Nals...)
+				}
+			}
+			if sp.LonePS && !key && r.Intn(6) == 0 {
+				if r.Intn(3) == 0 {
+					f.Nals = append([][]byte{es.Sps}, f.Nals...)
+				} else {
+					f.Nals = append([][]byte{es.Pps}, f.Nals...)
 				}
 			}
 			es.Frames = append(es.Frames, f)
